@@ -482,6 +482,38 @@ def rule_r7(ck, prog, rule='C17.R7'):
     return cnt
 
 
+def rule_r8(ck, prog, rule='C17.R8'):
+    """Each callback observes into a result object of its own: every local of an ObserverResult type that the callback loop of
+    ObservableRegistry::Observe mentions is created inside the iteration that uses it - a result object that survives from one
+    callback to the next makes the next instrument record the previous one's measurements again."""
+    from .common import stale_across_iterations, loops_over
+    f = prog.function('sdk::metrics::ObservableRegistry::Observe')
+    g = Graph(prog, f, inline=None, sync_lambdas=False)
+    loops = loops_over(f, lambda ap: ap == ('this', 'callbacks_'))
+    if len(loops) != 1:
+        raise AnalysisBroken('C17.R8: callback loop of ObservableRegistry::Observe not found')
+    lp = loops[0]
+    body = set(f.subtree(lp['body']))
+    decls = {d['id']: d for n in f.nodes if n['k'] == 'declstmt' for d in n['decls']}
+    used = sorted({f.nodes[i]['id'] for i in body if f.nodes[i]['k'] == 'ref' and f.nodes[i].get('sk') in ('local', 'static_local') and
+                   f.nodes[i].get('id') in decls and 'ObserverResult' in (decls[f.nodes[i]['id']].get('t') or '')})
+    if not used:
+        ck.inconclusive(rule, f, 'observer-result-fresh-per-callback', None, 'no ObserverResult local is used in the callback loop')
+        return
+    bad = None
+    for vid in used:
+        stale, why = stale_across_iterations(g, f, lp, vid)
+        if stale is None:
+            ck.inconclusive(rule, f, 'observer-result-fresh-per-callback', None, why)
+            return
+        if stale:
+            bad = (stale[0], decls[vid]['name'])
+            break
+    ck.verdict(bad is None, rule, f, 'observer-result-fresh-per-callback', bad[0].n if bad else None,
+               'every observer result used in the callback loop is created in the iteration that uses it (%d locals)' % len(used) if bad is None else
+               'the observer result %s outlives an iteration of the callback loop: the measurements one callback reported are recorded again for the next instrument, and its own total is re-recorded as unchanged' % bad[1])
+
+
 def run(ck, prog):
     ck.doc('C17.R1', 'registry: list under its mutex; callbacks invoked under the lock from the registered list, once per record; destructor cleans up; removal matches the whole registration', 9)
     ck.doc('C17.R2', 'Meter::Collect: Observe precedes every storage Collect', 1)
@@ -489,6 +521,7 @@ def run(ck, prog):
     ck.doc('C17.R4', 'AsyncMetricStorage::Record updates cumulative and delta tables; delta = previous->Diff(current)', 2)
     ck.doc('C17.R5', 'decision tables: explicit Sum view monotonicity = default selection; sync gauge never gets delta temporality', 5)
     ck.doc('C17.R6', 'the collector\'s per-meter callback never stops the iteration; CleanupCallback erases every record of the destroyed instrument', 2)
+    ck.doc('C17.R8', 'every callback observes into a result object created in its own iteration', 1)
     ck.doc('C17.R7', 'Sum Diff stores next - current directly (not through the monotonic guard of Aggregate)', 2)
     ck.doc('C08.R7', '(shared rule) ObserverResultT::Observe stores last-write-wins', 4)
     ck.doc('C06.R3', '(shared rule, see C06) buildMetrics reader fan-out: fast path only for a single reader; no early return before the stash', 5)
@@ -502,6 +535,7 @@ def run(ck, prog):
     rule_r5(ck, prog)
     rule_r6(ck, prog)
     rule_r7(ck, prog)
+    rule_r8(ck, prog)
     c08.rule_r7(ck, prog, setters=('sdk::metrics::ObserverResultT::Observe',))
     c06.build_metrics_rules(ck, prog, rule4=None)
     return {}
